@@ -13,9 +13,9 @@ import (
 // C01: Newick write/parse round trip.
 
 var c01Floats = []float64{1, 0, math.Copysign(0, -1), 0.1 + 0.2, 1e-7, 1e21, 5e-324, 1.7976931348623157e308, 123456789.12345679, -2.5, 0.000001, 1e-300}
-var c01TipNames = []string{"1", "1e5", "a b", "é", "-0.5", "TREE", "x/y", "0x1p-2", "Inf", "a'b", "1/2"}
-var c01InnerNames = []string{"n", "in ner", "'q d'", "BEGIN", "é1", "1x", "a/b", "1/x"}
-var c01Comments = [][]string{{"c"}, {""}, {"a b"}, {"x;y"}, {"(:,"}, {"&k={a,b}"}, {"c1", "c2"}, {"c1", "c2", "c3"}, {"["}, {" lead"}, {"1.5"}}
+var c01TipNames = []string{"1", "1e5", "a b", "é", "-0.5", "TREE", "x/y", "0x1p-2", "Inf", "a'b", "1/2", "1 b", "a 1", "1 2"}
+var c01InnerNames = []string{"n", "in ner", "'q d'", "BEGIN", "é1", "1x", "a/b", "1/x", "x 1", "2009/H1N1"}
+var c01Comments = [][]string{{"c"}, {""}, {"a b"}, {"x;y"}, {"(:,"}, {"&k={a,b}"}, {"c1", "c2"}, {"c1", "c2", "c3"}, {"["}, {" lead"}, {"1.5"}, {"0.99 "}, {" 1"}, {"a 1 ,b"}, {"&hpd=(0.25 , 0.75 )"}, {"1 2"}, {"trail "}}
 
 type c01slot struct {
 	n     int // menu size incl. default 0
@@ -54,14 +54,14 @@ func c01slots(t *rm.Tree) []c01slot {
 		}
 		if !root {
 			nf := len(c01Floats)
-			nc := 4
+			nc := 6
 			slots = append(slots, c01slot{1 + nf + nc, func(a int) {
 				a--
 				if a < nf {
 					n.HasLen, n.Len = true, c01Floats[a]
 				} else {
 					n.HasLen, n.Len = true, 0.5
-					n.BrCom = c01Comments[[]int{0, 3, 4, 1}[a-nf]][:1]
+					n.BrCom = c01Comments[[]int{0, 3, 4, 1, 11, 14}[a-nf]][:1]
 				}
 			}})
 		}
